@@ -552,6 +552,8 @@ def new_values(reviewed_exits, actual_exits):
         vt = value_tokens(a.get('label', ''))
         if not vt or vt in known:
             continue
+        if all(re.fullmatch(r'-?\d+_[iu](?:\d+|size)|\.\d+', t) for t in vt):
+            continue                       # a projection of a closure parameter (`|pair| pair[0]`, `|(cp, _)| cp`): plumbing
         # the same tokens in another order (operands of a commutative description) are the same value
         if any(sorted(vt) == sorted(k) for k in known):
             continue
